@@ -114,7 +114,7 @@ Fixpoint mop_touch (n : nat) (m : mop) : bool :=
   match m with
   | Skip | CallRandom | RetryIfUnset | ReadForHash _ => false
   | AtomicAdd c _ | AtomicSub c _ | AtomicSubFetch c _ | Load c | Store c _ | CAS c _
-  | StoreFresh c => cell_eqb c (RC n)
+  | CASOnce c _ | StoreFresh c => cell_eqb c (RC n)
   | BranchDestroyIfResultZero k => Nat.eqb k n
   | IfUnset b => existsb (mop_touch n) b
   end.
@@ -158,6 +158,8 @@ Proof.
     rewrite touch_app. unfold touch at 1. rewrite Hop, Hc. auto.
   - (* Retry *) destruct (fresh th =? -1); inversion E; subst; simpl; repeat split; auto.
   - (* CAS *) destruct (m c =? expected); inversion E; subst; simpl; rewrite ?Hop; rewrite ?wr_other by auto;
+      repeat split; auto.
+  - (* CASOnce *) destruct (m c =? reg th); inversion E; subst; simpl; rewrite ?Hop; rewrite ?wr_other by auto;
       repeat split; auto.
   - (* ReadForHash *) destruct w; inversion E; subst; simpl; repeat split; auto.
 Qed.
@@ -557,7 +559,7 @@ Fixpoint mop_sfree (m : mop) : bool :=
   match m with
   | Skip | BranchDestroyIfResultZero _ | CallRandom | RetryIfUnset => true
   | AtomicAdd c _ | AtomicSub c _ | AtomicSubFetch c _ | Load c | Store c _ | CAS c _
-  | StoreFresh c => negb (cell_eqb c Seed)
+  | CASOnce c _ | StoreFresh c => negb (cell_eqb c Seed)
   | IfUnset b => forallb mop_sfree b
   | ReadForHash _ => false
   end.
@@ -596,6 +598,7 @@ Proof.
   - destruct (fresh th =? -1); inversion E; subst; simpl; repeat split; auto.
   - destruct (m c =? expected); inversion E; subst; simpl; rewrite ?W by auto; repeat split; auto.
     destruct c; auto; discriminate.
+  - destruct (m c =? reg th); inversion E; subst; simpl; rewrite ?W by auto; repeat split; auto.
   - inversion E; subst; simpl; rewrite ?W by auto; repeat split; auto.
     destruct c; auto; discriminate.
 Qed.
@@ -796,6 +799,7 @@ Proof. vm_compute. repeat split; reflexivity. Qed.
 
 (* ---- negative controls: the theorems depend on the shapes of ThreadImpl ---- *)
 Definition plain_impl : impl_t := mkImpl plain_get plain_put cas_seed.
+Definition casonce_impl : impl_t := mkImpl casonce_get atomic_put cas_seed.
 Definition reread_impl : impl_t := mkImpl atomic_get reread_put cas_seed.
 Definition local_impl : impl_t := mkImpl atomic_get atomic_put local_seed.
 Definition store_impl : impl_t := mkImpl atomic_get atomic_put store_seed.
@@ -811,6 +815,33 @@ Proof.
   - unfold wf_init, total_get, rc_two, h1, UINT32_MAX; simpl.
     repeat split; try lia; repeat constructor; simpl; lia.
   - vm_compute. split; [reflexivity | discriminate].
+Qed.
+
+(* get as load + ONE compare-and-swap whose failure is ignored: every access is atomic or
+   a plain read, yet a schedule loses an acquisition (final count 3 instead of 4) ... *)
+Theorem casonce_lost_update :
+  exists ths sch, wf_init 0 rc_two ths /\
+    let st := run casonce_impl rnd_ex (init_state rc_two ths) sch in
+    finished st = true /\
+    mem st (RC 0) <> rc_two 0%nat + total_get 0 ths - total_put 0 ths.
+Proof.
+  exists [([Get 0]%nat, h1 1); ([Get 0]%nat, h1 1)], [0;1;0;1]%nat. split.
+  - unfold wf_init, total_get, rc_two, h1, UINT32_MAX; simpl.
+    repeat split; try lia; repeat constructor; simpl; lia.
+  - vm_compute. split; [reflexivity | discriminate].
+Qed.
+
+(* ... and then the node is destroyed while a reference is still owned *)
+Theorem casonce_premature_destroy :
+  exists ths sch, wf_init 0 rc_two ths /\
+    let st := run casonce_impl rnd_ex (init_state rc_two ths) sch in
+    destroy_count 0 (trace st) = 1 /\
+    exists th, nth_error (thr st) 1 = Some th /\ 1 <= held th 0%nat.
+Proof.
+  exists [([Get 0; Put 0; Put 0]%nat, h1 1); ([Get 0; Put 0]%nat, h1 1)], [0;1;0;1;0;0;0;0;1;1]%nat. split.
+  - unfold wf_init, total_get, rc_two, h1, UINT32_MAX; simpl.
+    repeat split; try lia; repeat constructor; simpl; lia.
+  - vm_compute. split; [reflexivity|]. eexists; split; [reflexivity|]. discriminate.
 Qed.
 
 (* ... and a schedule destroys the node while a thread still owns a reference *)
